@@ -32,6 +32,7 @@ type RunSpec struct {
 	DumpSMT      string `json:"dump_smt"`
 	Solver       string `json:"solver"`
 	AbstractTime bool   `json:"abstract_time"`
+	SleepEnv     bool   `json:"sleep_env"`
 	NoPreempt    bool   `json:"no_preempt"`
 	DebugPrefix  []int  `json:"debug_prefix"`
 }
@@ -172,6 +173,7 @@ func main() {
 		c.CoverModels = r.CoverModels
 		c.DumpSMT = r.DumpSMT
 		c.AbstractTime = r.AbstractTime
+		c.SleepEnv = r.SleepEnv
 		if r.Preempt > 0 {
 			c.MaxPreempt = r.Preempt
 		}
